@@ -128,7 +128,7 @@ def _parse(text: str, **options: Any) -> datetime | date | time | _Interval | Du
         dt = parser.parse(
             text, dayfirst=options["day_first"], yearfirst=options["year_first"]
         )
-    except ValueError:
+    except (ValueError, ArithmeticError):
         raise ParserError(f"Invalid date string: {text}")
 
     return dt
